@@ -14,7 +14,7 @@
 (***************************************************************************)
 EXTENDS LangDyn, Json, IOUtils
 S == INSTANCE LangStatic
-LongTail == IF IOEnv.LONGSTR = "1" THEN [j \in 1..300 |-> 76] ELSE <<>>
+LongTail == IF IOEnv.LONGSTR = "1" THEN [j \in 1..300 |-> 76] ELSE [j \in 1..atoi(IOEnv.LONGSTR) |-> 76]    \* "1" = 300 (legacy), else that many
 Num(c) == [k |-> "num", v |-> 4 * c]
 Var(x) == [k |-> "var", n |-> x, site |-> 0]
 StrL(s) == [k |-> "str", segs |-> <<[k |-> "lit", v |-> s]>>]
